@@ -25,7 +25,7 @@ def sphere_radius(env, vol, dim):
 class C02Cartesian(Harness):
     name = "C02Cartesian"
     prop = "C02"
-    bounds = ("every binary image on Cartesian grids 1D <=6 cells, 2D 3x3 (thorough: 1D 8, 2D 4x3, 3D 2x2x2 with "
+    bounds = ("every binary image on Cartesian grids 1D <=6 cells, 2D 3x3 (thorough: 1D 8, 2D 4x3, doubly periodic 4x4, 3D 2x2x2 with "
               "concrete spacing), every periodicity mask; image bits symbolic (forked), grid spacing (ratios within "
               "[1/3,3]) and origin symbolic in 1D/2D")
     stubs = ["py-pde CartesianGrid / ScalarField model", "scipy.ndimage label (real) / center_of_mass, sum (exact)"]
@@ -48,6 +48,7 @@ class C02Cartesian(Harness):
         if tier == "thorough":
             add((8,), "np", 2)
             add((4, 3), ["nn", "pn", "np", "pp"], 5)
+            add((4, 4), ["pp"], 8, geo="origin")      # all 65536 doubly periodic 4x4 images (chained merges of >= 4 pieces)
             add((2, 2, 2), ["nnn", "pnn", "ppp"], 1, geo="origin")
             add((2, 2, 3), ["nnp", "ppp"], 3, geo="origin")
         return c
